@@ -25,10 +25,12 @@ def main(tier):
     tmp = tla.scratch("c10-")
     try:
         pool = D.pool()
+        extra = D.extra_pool()          # collection-valued attributes (member order)
         et = dict(D.ET)
         # model checking over all triples of a reduced pool (all attribute kinds at every position, all three classes)
         small = [x for x in pool if x["a"]["b"]["i"] == 0 or x["a"]["f"]["t"] == "int"]
         small = small if thorough else [x for x in small if x["a"]["g"]["t"] == "none" or x["a"]["f"]["t"] in ("bm", "missing")][:60]
+        small = small + extra[:len(D.GX)] + extra[len(D.GX):len(D.GX) + 4]
         with open(os.path.join(tmp, "MC_Equality.tla"), "w") as f:
             f.write(f"---- MODULE MC_Equality ----\nEXTENDS Equality\net == {tla.to_tla(et)}\n"
                     f"pool == {tla.to_tla({'$set': small})}\n====\n")
@@ -39,7 +41,8 @@ def main(tier):
             raise tla.MachineryError("deviation eq_returns_at_first_method does not violate the equality laws")
         rep.coverage["deviation_counterexamples"] = {"eq_returns_at_first_method": tla.mc_violation(out)}
         rep.mark("mc")
-        xs = pool if thorough else pool[::2]
+        xs = (pool if thorough else pool[::2]) + extra
+        pool = pool + extra
         jobs = [(ch, xs) for ch in common.chunks(xs, 16)]
         events = [e for o in pipeline.pmap(D.run_pairs, jobs) for e in o]
         events += [e for o in pipeline.pmap(D.run_triples, [(pool, 20000 if thorough else 3000, common.seed() * 10 + w) for w in range(8)]) for e in o]
